@@ -1,3 +1,3 @@
 #!/bin/sh
 # dev helper: build the harness quietly, show only errors/warnings of the harness itself
-cd /verif/harness && CARGO_TARGET_DIR=${CARGO_TARGET_DIR:-/verif/target} cargo build --release --offline --message-format short 2>&1 | grep -E "^(src/|error)|Finished|could not compile" | grep -v "^warning" | head -${1:-60}
+cd /verif/harness && sed "s#@REPO@#/repo#g" Cargo.toml.in > Cargo.toml && CARGO_TARGET_DIR=${CARGO_TARGET_DIR:-/verif/target} cargo build --release --offline --message-format short 2>&1 | grep -E "^(src/|error)|Finished|could not compile" | grep -v "^warning" | head -${1:-60}
